@@ -1076,6 +1076,8 @@ class Models:
         t["core::ops::Range::contains"] = self.range_contains
         t["core::bool::<impl bool>::then"] = self.bool_then
         t["bool::then"] = self.bool_then
+        t["core::bool::<impl bool>::then_some"] = self.bool_then_some
+        t["bool::then_some"] = self.bool_then_some
         for q in ("<I as core::iter::Iterator>::for_each", "core::iter::Iterator::for_each"):
             t[q] = self.iter_for_each
         t["core::iter::Iterator::map"] = self.iter_map
@@ -1973,6 +1975,17 @@ class Models:
                 for s3, rv in interp.call_closure(s2, fr, f, [], info):
                     yield (s3, some(rv))
             else:
+                yield (s2, NONE)
+
+    def bool_then_some(self, interp, st, fr, info):
+        """b.then_some(v): Some(v) when b, otherwise v (already evaluated by the caller) is dropped and the answer is None"""
+        b, v = info["args"]
+        for s2, truth in self._fork_bool(interp, st, fr, b, info):
+            if truth:
+                yield (s2, some(v))
+            else:
+                interp.event(s2, fr, {"ev": "drop", "loc": None, "val": v, "ty": info["arg_tys"][1], "head": info["arg_tys"][1],
+                                      "ln": info["ln"], "bb": info["bb"], "unwind": info["unwind"], "moved": False, "explicit": True})
                 yield (s2, NONE)
 
     def try_branch_opt(self, interp, st, fr, info):
